@@ -521,7 +521,7 @@ def gen_edits(rng, case, n):
     kinds = ["bounds", "bounds", "coef", "ko_rxn", "ko_gene", "objective", "direction", "add_rxn", "remove_rxn",
              "add_met", "remove_met", "gpr", "note_set", "note_nested", "annot_set", "annot_nested", "compartment",
              "optimize", "fva", "pfba", "name", "imul", "group_member", "note_nested", "annot_nested", "compartment",
-             "remove_group", "tolerance", "medium"]
+             "remove_group", "tolerance", "medium", "add_rxn_foreign", "add_boundary_foreign"]
     for i in range(n):
         k = rng.choice(kinds)
         if k == "bounds":
@@ -537,6 +537,10 @@ def gen_edits(rng, case, n):
             edits.append([k, rng.choice(["min", "max"])])
         elif k == "add_rxn":
             edits.append([k, "NEW%d" % i, rng.choice(mids), rng.choice(mids)])
+        elif k == "add_rxn_foreign":
+            edits.append([k, "NEWF%d" % i, rng.choice(mids), rng.choice(mids)])
+        elif k == "add_boundary_foreign":
+            edits.append([k, rng.choice(mids)])
         elif k == "add_met":
             edits.append([k, "NM%d_c" % i])
         elif k == "remove_met":
@@ -560,7 +564,7 @@ def gen_edits(rng, case, n):
     return edits
 
 
-def apply_edit(m, e):
+def apply_edit(m, e, other=None):
     from cobra import Metabolite, Reaction
     from cobra.flux_analysis import flux_variability_analysis, pfba
     k = e[0]
@@ -583,6 +587,17 @@ def apply_edit(m, e):
             r.add_metabolites({m.metabolites.get_by_id(e[3]): 1.0})
         r.notes = {"new": [1]}
         m.add_reactions([r])
+    elif k == "add_rxn_foreign":
+        # a new reaction for THIS model written with metabolite objects looked up in the OTHER model
+        src = other if other is not None else m
+        r = Reaction(e[1], lower_bound=0, upper_bound=5)
+        r.add_metabolites({src.metabolites.get_by_id(e[2]): -1.0})
+        if e[3] != e[2]:
+            r.add_metabolites({src.metabolites.get_by_id(e[3]): 1.0})
+        m.add_reactions([r])
+    elif k == "add_boundary_foreign":
+        src = other if other is not None else m
+        m.add_boundary(src.metabolites.get_by_id(e[1]), type="demand")
     elif k == "remove_rxn":
         m.remove_reactions([m.reactions.get_by_id(e[1])], remove_orphans=True)
     elif k == "add_met":
@@ -645,7 +660,7 @@ def run_frame_case(case):
     stats, fails = {}, []
     for step, e in enumerate(case["edits"]):
         try:
-            apply_edit(edited, e)
+            apply_edit(edited, e, other)
             stats[e[0]] = stats.get(e[0], 0) + 1
         except Exception as ex:  # noqa  (an edit may legitimately fail: missing id, infeasible problem ...)
             stats["raised:" + type(ex).__name__] = stats.get("raised:" + type(ex).__name__, 0) + 1
@@ -674,6 +689,11 @@ def run_arith_case(case):
     rs = list(m.reactions)
     r1 = m.reactions.get_by_id(case["r1"])
     r2 = m.reactions.get_by_id(case["r2"])
+    if case["detached"] == "removed":
+        # the first operand was taken out of its model (its genes and metabolites stay there)
+        m.remove_reactions([r1])
+        if r2 is r1:
+            r2 = r1.copy()
     if case["detached"] in ("both", "first"):
         r1 = r1.copy()
     if case["detached"] in ("both", "second"):
@@ -851,13 +871,13 @@ def main(argv=None):
             c["side"] = "copy" if i % 2 == 0 else "orig"
             c["edits"] = gen_edits(rng, c, rng.randrange(4, 11 if quick else 25))
             frame_cases.append(c)
-        for i in range(128 if quick else 1280):
+        for i in range(160 if quick else 1600):
             c = gen_case(rng, "arith", small=True)
             ids = [r["id"] for r in c["net"]["rxns"]]
             c["r1"], c["r2"] = rng.choice(ids), rng.choice(ids)
             c["aop"] = ["add", "sub", "mul", "sum", "rcopy", "add0", "radd0", "sum1"][i % 8]
             c["coef"] = rng.choice([2.0, -1.0, 0.5, -2.0])
-            c["detached"] = ["none", "both", "second", "first"][(i // 8) % 4]
+            c["detached"] = ["none", "both", "second", "first", "removed"][(i // 8) % 5]
             c["ctx"] = False
             arith_cases.append(c)
 
